@@ -152,8 +152,10 @@ CLAIMS = {
     "C08": ("model_checking",
             "Types.tla ValueInType is an independent reading of type terms. (function, static argument types, reported result type, value) observations are "
             "recorded from the real typecheck/materialise/evaluate pipeline for every overload on the C12/C13 catalogues with exact, nullable and "
-            "multi-alternative (NULL | T | String) argument typings and NULL in each position; TLC checks ValueInType(value, reported type) on every observation.",
-            "Expression level (aggregates and file schemas are covered by C03/C24 runs).", "TLA+ type denotation + TLC check of observed (type, value) pairs from the real pipeline",
+            "multi-alternative (NULL | T | String) argument typings and NULL in each position, and for every result column of TLC-generated queries (families group, "
+            "join, single of RelCases.tla: aggregates over nullable inputs with all-NULL groups, outer-join padding, subqueries; optimiser on and off); TLC checks "
+            "ValueInType(value, reported type) on every observation.",
+            "File schemas are covered by C24.", "TLA+ type denotation + TLC check of observed (type, value) pairs from the real pipeline",
             "DESIGN.md 6/C08"),
     "C05": ("model_checking",
             "Relational.tla family 'limit' enumerates every table of <= 4 rows over 3 distinct rows (duplicates) x LIMIT 0..4 x 4 ORDER BY shapes x {top level, "
